@@ -1,14 +1,16 @@
 #!/bin/sh
 # dev/mutant.sh Cxx patch.diff [tier]  — apply a patch to a scratch worktree of /repo, run the check against it, clean up.
 # Not a registered command; scratch copies live under /tmp and are removed at once.
+ROOT="$(cd "$(dirname "$0")/.." && pwd)"
 P="$1"; PATCH="$(readlink -f "$2")"; TIER="${3:-quick}"
 WT=/tmp/wt-mut-$$
 git -C /repo worktree add -q --detach "$WT" HEAD || exit 2
 if ! git -C "$WT" apply "$PATCH"; then echo "PATCH DOES NOT APPLY"; git -C /repo worktree remove --force "$WT"; exit 2; fi
 (cd "$WT" && GOFLAGS=-mod=mod GOPROXY=off go build ./... ) || echo "MUTANT DOES NOT BUILD"
-VERIF_EVIDENCE_DIR=/tmp/mut-evidence VERIF_REPLAY_DIR=/tmp/mut-replays VERIF_REPO="$WT" /verif/check "$P" --tier "$TIER"; RC=$?
+VERIF_EVIDENCE_DIR=/tmp/mut-evidence-$$ VERIF_REPLAY_DIR=/tmp/mut-replays-$$ VERIF_REPO="$WT" "$ROOT/check" "$P" --tier "$TIER"; RC=$?
 git -C /repo worktree remove --force "$WT"
+rm -rf /tmp/mut-evidence-$$; [ -n "$KEEP_REPLAY" ] || rm -rf /tmp/mut-replays-$$
 # restore Gen for the real tree
-/verif/.build/extract -repo /repo -out /verif/lean/OsmVerif/Gen >/dev/null
+"$ROOT/.build/extract" -repo /repo -out "$ROOT"/lean/OsmVerif/Gen >/dev/null
 echo "mutant exit=$RC"
 exit $RC
